@@ -13,6 +13,7 @@ import (
 var verifC17ModPool = []string{
 	"''", "a", "-1", "0", "1e400", "NaN", "\"\\xff\"", "9223372036854775808", "-9223372036854775808",
 	"[]", "[a b]", "[&]", "[&k=v]", "$nil", "$true", "(num 0.5)", "{ }", "{|x| put $x }", "1/3", "-0.0", "(num -Inf)", "100000000000000000000", "'('", "'\\'",
+	"'(a)|b'", "b", "'(x)?y'", "y",
 }
 
 var verifC17Mods = []struct {
@@ -23,9 +24,12 @@ var verifC17Mods = []struct {
 // unbounded results by design
 var verifC17ModSkip = map[string]bool{"str:repeat": true}
 
-func verifC17ModNames() []string {
+func verifC17ModNames(only int) []string {
 	var names []string
-	for _, m := range verifC17Mods {
+	for mi, m := range verifC17Mods {
+		if only >= 0 && mi != only {
+			continue
+		}
 		var fns []string
 		m.ns.IterateKeysString(func(k string) {
 			if len(k) > 1 && k[len(k)-1] == '~' && !verifC17ModSkip[m.name+":"+k[:len(k)-1]] {
@@ -42,10 +46,11 @@ func verifC17ModNames() []string {
 	return names
 }
 
-// VerifC17Module: every function of the str, math, re and flag modules called
+// VerifC17Module: every function of the str, math, re and flag modules (or of
+// the one with index `only`: 0 str, 1 math, 2 re, 3 flag) called
 // through the real evaluator with nargs arguments from the adversarial pool.
-func VerifC17Module(nargs int) {
-	names := verifC17ModNames()
+func VerifC17Module(nargs, only int) {
+	names := verifC17ModNames(only)
 	name := names[vrt.Choice("function", len(names))]
 	code := name
 	for i := 0; i < nargs; i++ {
